@@ -1,4 +1,42 @@
+use crate::common::Ctx;
+use serde_json::Value;
+
+pub mod c01;
+pub mod c02;
+pub mod c12;
+pub mod c13;
 pub mod c14;
 pub mod c15;
 pub mod c16;
 pub mod c17;
+pub mod hard;
+
+pub fn run(ctx: &Ctx, prop: &str) -> bool {
+    match prop {
+        "C01" => c01::run(ctx),
+        "C02" => c02::run(ctx),
+        "C12" => c12::run(ctx),
+        "C13" => c13::run(ctx),
+        "C14" => c14::run(ctx),
+        "C15" => c15::run(ctx),
+        "C16" => c16::run(ctx),
+        "C17" => c17::run(ctx),
+        _ => return false,
+    }
+    true
+}
+
+pub fn replay(ctx: &Ctx, prop: &str, kind: &str, case: &Value) -> bool {
+    match prop {
+        "C01" => c01::replay(ctx, case),
+        "C02" => c02::replay(ctx, kind, case),
+        "C12" => c12::replay(ctx, case),
+        "C13" => c13::replay(ctx, kind, case),
+        "C14" => c14::replay(ctx, case),
+        "C15" => c15::replay(ctx, case),
+        "C16" => c16::replay(ctx, case),
+        "C17" => c17::replay(ctx, kind, case),
+        _ => return false,
+    }
+    true
+}
